@@ -11,13 +11,13 @@ Variable fold : sv -> sv.
 (* the same machine state with another error buffer and another value of the flag *)
 Definition reperm (m : vm) (errs : list (N * exec_err)) (p : bool) : vm :=
   mk_vm (v_code m) (v_queue m) (v_stored m) (v_jt m) (v_killed m) errs (v_next_id m) (v_polls m)
-        (v_counter m) (v_retired m) (mk_config' (lim (v_cfg m)) p).
+        (v_counter m) (v_retired m) (v_paths m) (mk_config' (lim (v_cfg m)) p).
 
-Ltac proj := cbn [v_code v_queue v_stored v_jt v_killed v_errors v_next_id v_polls v_counter v_retired v_cfg
-                  tip tvis tgas tstate snd fst reperm lim permissive].
+Ltac proj := cbn [v_code v_queue v_stored v_jt v_killed v_errors v_next_id v_polls v_counter v_retired v_paths v_cfg
+                  tip tvis tgas tstate tpath snd fst reperm lim permissive].
 Tactic Notation "proj" "in" hyp(H) :=
-  cbn [v_code v_queue v_stored v_jt v_killed v_errors v_next_id v_polls v_counter v_retired v_cfg
-       tip tvis tgas tstate snd fst reperm lim permissive] in H.
+  cbn [v_code v_queue v_stored v_jt v_killed v_errors v_next_id v_polls v_counter v_retired v_paths v_cfg
+       tip tvis tgas tstate tpath snd fst reperm lim permissive] in H.
 
 (* one iteration of the main loop does the same thing to everything except the error buffer *)
 Lemma vm_step_reperm m errs p :
